@@ -106,10 +106,12 @@ pub struct RunOpts {
     /// stop at the first difference
     pub stop_first: bool,
     pub op_budget_ms: u64,
+    /// evaluate the model's executable invariant after every update
+    pub check_inv: bool,
 }
 impl Default for RunOpts {
     fn default() -> Self {
-        RunOpts { model: true, cmp_every: None, cmp_end: true, stop_first: true, op_budget_ms: 20_000 }
+        RunOpts { model: true, cmp_every: None, cmp_end: true, stop_first: true, op_budget_ms: 20_000, check_inv: false }
     }
 }
 
@@ -375,6 +377,12 @@ pub fn run_seq(seq: &Seq, dir: &Path, driver: &mut Option<Driver>, opts: &RunOpt
             if w != "-" && &got != w {
                 let facet = if matches!(op, Op::Map(..)) { "open" } else { "api" };
                 diffs.push(Diff { idx, facet, op: op.text(), got: got.clone(), want: w.clone() });
+            }
+        }
+        if opts.check_inv && op.is_update() && opts.model && driver.is_some() {
+            let a = ask(driver, format!("m{} check", cur));
+            if a != "inv-ok" {
+                diffs.push(Diff { idx, facet: "inv", op: op.text(), got: a, want: "inv-ok".into() });
             }
         }
         // ---------------- byte comparison
